@@ -169,6 +169,8 @@ func datasetScenario(tier string, long bool) *mc.Scenario[*DatasetWorld] {
 			}))
 	}
 	sc.Ops = append(sc.Ops,
+		// a dataset merged with itself holds every value twice
+		dsOp("a.Merge(a)", 1, func(w *DatasetWorld) { w.D[0].Merge(w.D[0]); w.M[0] = append(w.M[0], w.M[0]...) }),
 		dsOp("a.Merge(b)", 1, func(w *DatasetWorld) { w.D[0].Merge(w.D[1]); w.M[0] = append(w.M[0], w.M[1]...) }),
 		dsOp("b.Merge(a)", 2, func(w *DatasetWorld) { w.D[1].Merge(w.D[0]); w.M[1] = append(w.M[1], w.M[0]...) }))
 	sc.Dump = func(w *DatasetWorld, d *mc.Dumper) {
